@@ -271,12 +271,12 @@ impl Gen {
         let id = self.next_id;
         self.next_id += 1;
         // skewed tags so that deletes hit documents on both sides of a commit
-        let tag = if rng.chance(3, 4) { rng.below(3) } else { rng.below(NTAGS) };
+        let tag = if rng.chance(4, 5) { rng.below(2) } else { rng.below(NTAGS) };
         let val = match rng.below(6) { 0 => i64::MIN, 1 => i64::MAX, 2 => 0, _ => rng.next_u64() as i64 % 1000 };
         Doc { id, tag, val }
     }
     fn query(&mut self, rng: &mut Rng) -> Q {
-        if rng.chance(3, 4) || self.next_id == 0 { Q::Tag(if rng.chance(3, 4) { rng.below(3) } else { rng.below(NTAGS) }) }
+        if rng.chance(3, 4) || self.next_id == 0 { Q::Tag(if rng.chance(4, 5) { rng.below(2) } else { rng.below(NTAGS) }) }
         else { let lo = rng.below(self.next_id); Q::IdRange(lo, lo + rng.below(3)) }
     }
     fn history(&mut self, rng: &mut Rng, len: usize, allow_delete_all: bool, allow_merge: bool) -> Vec<Step> {
@@ -285,7 +285,7 @@ impl Gen {
         for _ in 0..len {
             let r = rng.below(100);
             let st = if r < 42 { fresh = false; Step::Op(Op::Add(self.doc(rng)), false) }
-            else if r < 60 { fresh = false; Step::Op(Op::Del(self.query(rng)), false) }
+            else if r < 62 { fresh = false; Step::Op(Op::Del(self.query(rng)), false) }
             else if r < 68 {
                 fresh = false;
                 let n = rng.below(5) as usize;
@@ -318,6 +318,21 @@ impl Gen {
     }
 }
 fn ops_of(steps: &[Step]) -> Vec<Op> { steps.iter().filter_map(|s| if let Step::Op(o, _) = s { Some(o.clone()) } else { None }).collect() }
+
+/// the predicate `spec_opstamps` of WriterObs.v, on this side (only to choose the kind of case; Coq decides)
+fn opstamps_ok(h: &[Op], obs: &[Obs]) -> bool {
+    let (mut cs, mut ws, mut lc): (Vec<u64>, Vec<u64>, u64) = (vec![], vec![], 0);
+    for (o, ob) in h.iter().zip(obs.iter()) {
+        match o {
+            Op::Add(_) | Op::Del(_) | Op::Batch(_) => ws.push(ob.ret),
+            Op::DeleteAll => {}
+            Op::Commit(_) => { if !ws.iter().all(|s| *s < ob.ret) || ob.meta_op != ob.ret { return false; } cs = ws.clone(); lc = ob.ret; }
+            Op::Rollback | Op::Abort => { if ob.ret != lc || ob.meta_op != lc { return false; } ws = cs.clone(); }
+            Op::Reopen => { if ob.meta_op != lc { return false; } ws = cs.clone(); }
+        }
+    }
+    true
+}
 
 fn same_multiset(a: &[Doc], b: &[Doc]) -> bool {
     let key = |d: &Doc| (d.id, d.tag, d.val);
@@ -401,11 +416,12 @@ fn emit_history(out: &mut CaseOut, rng: &mut Rng, ctx: &Ctx, steps: &[Step], cfg
     out.spec_checked(payload_ok, json!({"what": "meta.payload is not the payload of the last commit", "case": desc}));
     // ---- spec: opstamps (order relations; meta.opstamp; rollback's return value)
     let ops_ok_term = format!("spec_opstamps {} {}", hc, ops_term);
-    if rp.f2_class {
-        // opstamps are re-used after delete_all (F2): decided by Coq, classified when it fails
-        out.coq_case("known:F2", format!("F2_class F1_FIXED {} || {}", hc, ops_ok_term), desc.clone(), nontrivial);
-    } else {
+    if opstamps_ok(&h, &obs) {
         out.coq_case("spec", ops_ok_term, desc.clone(), nontrivial);
+    } else {
+        // opstamps are re-used after delete_all (F2): classified by Coq
+        out.coq_case("known:F2", format!("F2_class F1_FIXED {} && negb ({})", hc, ops_ok_term), desc.clone(), nontrivial);
+        out.count("histories_opstamp_order_broken", 1);
     }
     // ---- spec: commit_opstamp() (F1)
     let acc_ok = h.iter().zip(obs.iter()).all(|(o, ob)| !matches!(o, Op::Commit(_)) || ob.acc == ob.ret);
@@ -504,7 +520,7 @@ fn main() {
     }
 
     // ---------------- generated histories ----------------
-    let n_hist = if thorough { 1500 } else { 150 };
+    let n_hist = if thorough { 2000 } else { 320 };
     for i in 0..n_hist {
         let threads = match i % 4 { 0 => 1, 1 => 1 + rng.below(8) as usize, 2 => 2, _ => 8 - (i / 4) % 8 };
         let log_merge = i % 4 != 0 && rng.chance(1, 2);
